@@ -391,8 +391,12 @@ theorem matchAdapter_redirect_inv {m : RMap} {a : Adapter} {p : Str} {meth : Opt
     split at h
     · cases h
     · rename_i u hu
-      cases h
-      exact .inr (.inl ⟨r, vals, u, rfl, hu, rfl⟩)
+      rcases aliasOutcome_cases (if (effQa a qa).truthy = true then u ++ '?' :: encodeQueryArgs (effQa a qa) else u)
+        (domainPartOf m.cfg a) (pathPart p) with hh | hh
+      · rw [hh] at h; cases h
+      · rw [hh] at h
+        cases h
+        exact .inr (.inl ⟨r, vals, u, rfl, hu, rfl⟩)
   | noMatch ms wsm =>
     simp only [hsm] at h
     split at h
